@@ -25,10 +25,11 @@ PROPS["C01"] = {
     "witness_always": ["stdlib_scoping"],
     "witness_bound": {"stdlib_scoping": "real VM + full stdlib vs a stack-of-snapshots model: every program of <= 3 operations, of 4 operations opening a group in the first two, of 5 starting with two nested groups (thorough: all 345k programs of <= 5) over 17 operations: {, }, local/global \\count, \\countdef alias, \\def/\\gdef of a control sequence and of an ACTIVE character, \\let, \\catcode, \\globaldefs in {1,-1,0}; all values read after every step"},
     "level": "proof",
-    "verus": ["stdext_groupingmap", "texlang_savestack", "texlang_cmdmap", "stdlib_prefix"],
+    "verus": ["stdext_groupingmap", "texlang_savestack", "texlang_cmdmap", "texlang_vmgroups", "stdlib_prefix"],
     "kani": [],
     "unverified_callers": [
-        "texlang/src/vm/mod.rs VM::run_impl dispatch, VM::begin_group/end_group (three stacks pushed/popped in lockstep - by inspection)",
+        "texlang/src/vm/mod.rs VM::run_impl dispatch (VM::begin_group/end_group are proved: three stacks in lockstep, unwraps safe)",
+        "TypedVariable::set and SaveStackMap::restore: they call the variable's setter through a FUNCTION POINTER field; Verus rejects function pointer types, so these two stay covered by the bounded driver stdlib_scoping only",
         "font save stack (inlined in run_impl)",
         "SaveStackMap::restore (writes each saved value back; consuming HashMap iteration)",
         "supported_type_impl! macro: the closures passed as map_getter",
@@ -164,7 +165,7 @@ PROPS["C02"] = {
 PROPS["C09"] = {
     "level": "proof",
     "only_kinds": ["overflow", "div-by-zero", "bounds", "precondition", "shift", "assertion", "concrete-counterexample", "kani"],
-    "verus": ["common_scaled", "texlang_parse_int", "texlang_parse_dimen", "texlang_parse_glue", "stdlib_math", "stdext_groupingmap", "stdext_kmp", "texlang_savestack", "texlang_cmdmap", "stdlib_prefix", "stdlib_cond", "texlang_macro"],
+    "verus": ["common_scaled", "texlang_parse_int", "texlang_parse_dimen", "texlang_parse_glue", "stdlib_math", "stdext_groupingmap", "stdext_kmp", "texlang_savestack", "texlang_cmdmap", "texlang_vmgroups", "stdlib_prefix", "stdlib_cond", "texlang_macro"],
     "kani": [],
     "witness_always": ["texlang_parse_num", "stdlib_totality"],
     "witness_fns": {"texlang_parse_num": ["parse_impl", "parse_constant", "scan_dimen"]},
